@@ -77,7 +77,10 @@ class AbsPDF:
 
     @contextlib.contextmanager
     def temp_params(self, var):
-        params = self.get_params()
+        # stored values, not the ones a mask_params block lets through
+        params = {
+            k: self.vm.get(k, val_in_fit=False) for k in self.vm.variables
+        }
         self.set_params(var)
         try:
             yield var
